@@ -61,6 +61,7 @@ var glTargets = []glTarget{
 	{pkg: "service/metrics", recv: "measuredConn", name: "Write"},
 	{pkg: "service/metrics", recv: "measuredConn", name: "WriteTo"},
 	{pkg: "service/metrics", recv: "measuredConn", name: "ReadFrom"},
+	{pkg: "cmd/outline-ss-server", recv: "Config", name: "Validate", opaque: map[string]bool{"SplitHostPort": true, "ParseIP": true}},
 	{pkg: "prometheus", recv: "tcpConnMetrics", name: "AddAuthenticated", opaque: map[string]bool{"toIPKey": true}},
 	{pkg: "prometheus", recv: "tcpConnMetrics", name: "AddClosed", opaque: map[string]bool{"toIPKey": true}},
 	{pkg: "prometheus", recv: "tcpConnMetrics", name: "AddProbe"},
@@ -558,6 +559,9 @@ func (f *glFn) binary(x *ast.BinaryExpr) string {
 	case token.GEQ:
 		return "(decide (" + a + " ≥ " + b + "))"
 	case token.ADD:
+		if lt == "String" {
+			return "(" + a + " ++ " + b + ")"
+		}
 		return "(" + a + " + " + b + ")"
 	case token.SUB:
 		return "(" + a + " - " + b + ")"
